@@ -18,6 +18,7 @@ from __future__ import annotations
 from vlib.common import Run, Finding, BrokenTie, coq_eval_many, parse_eval, listlit, shrink_list
 
 K_RAISE = 'F31-limit-raise-does-not-request-cycle'
+K_SKIP = 'F32-upload-skipped-by-cycle-is-not-reconsidered'
 STATUS = {'UNKNOWN': -1, 'OFFLINE': 0, 'AWAY': 1, 'ONLINE': 2}
 ST_COQ = {'UNKNOWN': 'Unknown', 'OFFLINE': 'Offline', 'AWAY': 'Away', 'ONLINE': 'Online'}
 
@@ -176,8 +177,13 @@ class Driver:
                                   f'for a slot that is not in use', self.nops))
         if free > 0 and waiting:
             text = f'{free} free slot(s), eligible user(s) {waiting} with a queued upload, management job idle and no cycle requested'
+            wait_ids = [id(t) for i, t in enumerate(self.ts) if t.username in waiting and t.state.VALUE.name == 'QUEUED']
             if self.cycles_at_raise is not None and tw.cycles == self.cycles_at_raise:
                 self.viol.append((K_RAISE, text + ' since the limit was raised', self.nops))
+            elif any(id(t) in tw.last_skipped and t.state.VALUE.name == 'QUEUED' and (t._transfer_task is None or t._transfer_task.done())
+                     and not t._state_lock.locked() for t in self.ts):
+                self.viol.append((K_SKIP, text + '; the last cycle skipped the upload because its previous task was still finishing / its '
+                                                 'state lock was held (a state listener suspended), and nothing requests another cycle', self.nops))
             else:
                 self.viol.append(('free-slot-not-used-at-rest', text, self.nops))
 
@@ -218,6 +224,15 @@ class Driver:
             u = op[1]
             if u < len(tw.names):
                 t = tw.add_upload(self.uname(u), f'f{len(self.ts)}')
+                if self.pop.get('app_listener'):
+                    # an application listener on the transfer that awaits something: state changes then suspend
+                    # while the state lock is held (the state itself is already changed)
+                    import asyncio as _a
+
+                    class _L:
+                        async def on_transfer_state_changed(self, transfer, old, new):
+                            await _a.sleep(0)
+                    t.state_listeners.append(_L())
                 self.ts.append(t)
                 evs.append(f'Queue {u}')
                 tw.settle(30)
@@ -342,7 +357,7 @@ class Driver:
         elif kind == 'F':
             u, b = op[1], op[2]
             if u < len(tw.names):
-                tw.set_friend(self.uname(u), b)
+                tw.set_friend(self.uname(u), b, replace=(len(op) > 3 and op[3] == 'replace'))
                 evs.append(f'Friend {u} {"true" if b else "false"}')
         elif kind == 'Rel':    # the server finally answers the held GetPeerAddress requests for user u
             u = op[1]
@@ -368,7 +383,8 @@ def gen_pop(rng):
     return {'slots': rng.choice([0, 1, 1, 2, 2, 3, 4]), 'nusers': n,
             'mode': rng.choice(['race', 'race', 'fallback']),
             'refuse': [u for u in range(n) if rng.random() < 0.15],
-            'hold': [u for u in range(n) if rng.random() < 0.25]}
+            'hold': [u for u in range(n) if rng.random() < 0.25],
+            'app_listener': rng.random() < 0.2}
 
 
 def gen_prelude(rng, pop):
@@ -414,7 +430,7 @@ def next_op(rng, d: Driver, free_running=False):
     if r < 0.95:
         return ['St', rng.randrange(nu), rng.choice(['OFFLINE', 'AWAY', 'ONLINE']), rng.random() < 0.3]
     if r < 0.975:
-        return ['F', rng.randrange(nu), rng.random() < 0.6]
+        return ['F', rng.randrange(nu), rng.random() < 0.6, rng.choice(['mutate', 'replace'])]
     if r < 0.99:
         return ['Priv', rng.randrange(nu)]
     return ['PrivList', sorted(rng.sample(range(nu), rng.randrange(0, nu + 1)))]
@@ -636,8 +652,9 @@ def run(run: Run):
                     'harness-controlled cycle placement in driven mode (manage_transfers called inside one loop iteration)']
     run.assumptions += ['A1: no created initialize-upload task is still unstarted when the next management cycle runs',
                         'only uploads are modelled (downloads do not use upload slots)']
-    run.prove(['tr_prio'])
+    proved = run.prove(['tr_prio'])
     run.cov['a1_checked_at_every_cycle'] = True
+    boost = 1 if proved else 3      # a broken tie (translator / fingerprint / proof) triggers the longer directed search
 
     for key, wit, _fixed in run.known_witnesses():
         if not wit:
@@ -652,8 +669,8 @@ def run(run: Run):
             run.add_finding(Finding(k, text, wit, observed=text, expected='property C05'))
 
     quick = run.tier == 'quick'
-    n_driven = 120 if quick else 800
-    n_free = 30 if quick else 200
+    n_driven = (120 if quick else 800) * boost
+    n_free = (30 if quick else 200) * boost
     maxops = 26 if quick else 40
     cases = []
     reported = set()
